@@ -52,7 +52,7 @@ def add(wt, sid, prop, needs):
     return ok
 
 
-def run(sids, tier, props):
+def run(sids, tier, props, seeds=("0",)):
     base = os.path.join(VERIF, "seeded")
     for sid in sorted(os.listdir(base)):
         if sids and sid not in sids:
@@ -69,13 +69,15 @@ def run(sids, tier, props):
                 meta["checks"][f"apply@{tier}"] = "patch does not apply"
                 continue
             for prop in (props or [meta["property"]]):
-                env = dict(os.environ, VERIF_REPO=dst, VERIF_EVIDENCE_DIR=os.path.join(scratch, "ev"),
-                           VERIF_REPLAY_DIR=os.path.join(scratch, "rp"))
-                rc, out = sh([os.path.join(VERIF, "check"), prop, tier], env=env, timeout=7200)
-                kinds = sorted({l.split("kind=")[1].split(" ")[0] for l in out.split("\n") if "kind=" in l})
-                head = next((l for l in out.split("\n") if l.startswith("[" + prop)), "")
-                meta["checks"][f"{prop}@{tier}"] = {"rc": rc, "kinds": kinds[:8], "summary": head}
-                print(f"{sid}: ./check {prop} {tier} -> rc={rc} {'CAUGHT' if rc == 1 else 'MISSED' if rc == 0 else 'INCONCLUSIVE'} {kinds[:5]}")
+                for vseed in seeds:
+                    env = dict(os.environ, VERIF_REPO=dst, VERIF_EVIDENCE_DIR=os.path.join(scratch, "ev"),
+                               VERIF_REPLAY_DIR=os.path.join(scratch, "rp"), VERIF_SEED=str(vseed))
+                    rc, out = sh([os.path.join(VERIF, "check"), prop, tier], env=env, timeout=7200)
+                    kinds = sorted({l.split("kind=")[1].split(" ")[0] for l in out.split("\n") if "kind=" in l})
+                    head = next((l for l in out.split("\n") if l.startswith("[" + prop)), "")
+                    key = f"{prop}@{tier}" if str(vseed) == "0" else f"{prop}@{tier}@seed{vseed}"
+                    meta["checks"][key] = {"rc": rc, "kinds": kinds[:8], "summary": head}
+                    print(f"{sid}: VERIF_SEED={vseed} ./check {prop} {tier} -> rc={rc} {'CAUGHT' if rc == 1 else 'MISSED' if rc == 0 else 'INCONCLUSIVE'} {kinds[:5]}", flush=True)
         finally:
             shutil.rmtree(scratch, ignore_errors=True)
             json.dump(meta, open(os.path.join(d, "meta.json"), "w"), indent=1)
@@ -86,11 +88,14 @@ if __name__ == "__main__":
     if a[0] == "add":
         add(a[1], a[2], a[3], a[4])
     else:
-        tier, props, sids = "quick", None, []
+        tier, props, sids, seeds = "quick", None, [], ("0",)
         i = 1
         while i < len(a):
             if a[i] == "--tier":
                 tier = a[i + 1]
+                i += 2
+            elif a[i] == "--seeds":
+                seeds = tuple(a[i + 1].split(","))
                 i += 2
             elif a[i] == "--props":
                 props = a[i + 1].split(",")
@@ -98,4 +103,4 @@ if __name__ == "__main__":
             else:
                 sids.append(a[i])
                 i += 1
-        run(sids, tier, props)
+        run(sids, tier, props, seeds)
